@@ -27,6 +27,12 @@ namespace NunavutVerif.CLiteral
 
 abbrev Str := List Char
 
+instance {ε α : Type} [DecidableEq ε] [DecidableEq α] : DecidableEq (Except ε α)
+  | .ok a, .ok b => if h : a = b then isTrue (by rw [h]) else isFalse (by intro e; cases e; exact h rfl)
+  | .error a, .error b => if h : a = b then isTrue (by rw [h]) else isFalse (by intro e; cases e; exact h rfl)
+  | .ok _, .error _ => isFalse (by intro e; cases e)
+  | .error _, .ok _ => isFalse (by intro e; cases e)
+
 /-! ## 1. Python values and the rendering filters -/
 
 /-- `fractions.Fraction`: the class keeps `den > 0` and lowest terms (hypotheses of the theorems, not needed to run).
@@ -484,7 +490,7 @@ def lex : Nat → Str → Option (List Tok)
       (lex f id.2).map (Tok.ident id.1 :: ·)
     else none
 
-def lexStr (cs : Str) : Option (List Tok) := lex (cs.length + 16) cs
+def lexStr (cs : Str) : Option (List Tok) := lex (cs.length + 32) cs
 
 inductive CType
   | bool | int | uint | long | ulong | llong | ullong | float | double
